@@ -7,6 +7,7 @@ import (
 	"math/rand/v2"
 	"os"
 	"sort"
+	"strings"
 	"time"
 
 	"github.com/scionproto/scion/control/beacon"
@@ -23,6 +24,7 @@ type c26Case struct {
 	Cands [][]beaconref.Link `json:"candidates"` // ordered by length
 	Got   []int              `json:"got,omitempty"`
 	Note  string             `json:"note,omitempty"`
+	Ctx   *c26CtxSpec        `json:"ctx,omitempty"` // context dimension (c26ctx.go); nil: context.Background()
 }
 
 func c26Gen(rng *rand.Rand) c26Case {
@@ -136,6 +138,10 @@ func c26Run(r *mon.Run, c c26Case, sample bool) {
 // witness written with a violation (c itself, or the history c is a step of).
 func c26Judge(r *mon.Run, kp, ep string, c *c26Case, wit any, beacons, res []beacon.Beacon, p any, stack string, sample bool) {
 	n := len(c.Cands)
+	further := "further:"
+	if strings.HasPrefix(kp, "C26:ctx:") {
+		further = "" // keys C26:ctx:<when>:most-diverse-expected
+	}
 	idx := make(map[*seg.PathSegment]int, n)
 	ref := make([]beaconref.Cand, n)
 	for i, links := range c.Cands {
@@ -249,9 +255,9 @@ func c26Judge(r *mon.Run, kp, ep string, c *c26Case, wit any, beacons, res []bea
 			}
 		}
 		if !ok {
-			key := kp + "further:first-remaining-expected"
+			key := kp + further + "first-remaining-expected"
 			if diverse {
-				key = kp + "further:most-diverse-expected"
+				key = kp + further + "most-diverse-expected"
 			}
 			r.Violation(key, fmt.Sprintf("n=%d k=%d: further candidate is %d (len %d, diversity %d); allowed %v "+
 				"(best diversity among first k-1 = %d, best among remaining = %d)",
@@ -273,6 +279,7 @@ func bucket(k int) string {
 }
 
 func checkC26(r *mon.Run) {
+	defer c26CtxFlush(r) // the ctx/* classes are counted locally (c26ctx.go)
 	r.Rule = "candidate lists of 0..32 loop-free beacons (1..8 AS entries, links drawn from a small pool and shared with the " +
 		"first candidate with probability 0..1, many equal lengths, exact duplicates) ordered by length x k in 1..n+2; " +
 		"the real baseAlgo.SelectBeacons result is compared with a literal transcription of the statement " +
@@ -281,12 +288,19 @@ func checkC26(r *mon.Run) {
 		"(propagate / register up, down, core) on ONE beacon.Store or CoreStore over an in-memory DB, while the candidate pool " +
 		"evolves between calls (new shortest beacon of the same or another origin, further beacons, removals incl. the first, k " +
 		"changes, identical repetition; recurring candidates are handed over as the same object or re-read as a new one); every " +
-		"call is judged on its own inputs (keys C26:history:*); class history/<what changed since the previous call>"
+		"call is judged on its own inputs (keys C26:history:*); class history/<what changed since the previous call>. " +
+		"Context dimension: about every 8th single case, every 3rd history call and 2 of 3 store queries are repeated with a context " +
+		"that is already cancelled / past its deadline (standard library or the harness context c26Ctx), that reports done from " +
+		"its n-th Err()/Done() poll on (n in 0..399, PRNG-chosen), or (stores) that the DB cancels right after it fetched the " +
+		"candidates of a PRNG-chosen read; the DB either ignores the context or refuses reads once it is done. Whatever selection " +
+		"is returned without error must be the reference's (keys C26:ctx:<when>:<what>); an error or an empty result under a done " +
+		"context is only classed (ctx/<when>/<via>/error, /empty-result); classes ctx/<when>/<via or shape>/..."
 	r.Assumptions = []string{
 		"diversity of a candidate with respect to the first = number of links (AS, egress interface) of the first that do not appear in the candidate (documented meaning of Beacon.Diversity)",
 		"candidates are ordered by length and loop-free (a link occurs at most once per beacon)",
 		"ties in both diversity and length among remaining candidates: any of them is accepted",
 		"k = 1 < n: only 'returns exactly one of the candidates, no panic' is judged (the statement has no first beacon to be diverse against)",
+		"context dimension: the statement makes no exception for a cancelled or expired context, so a selection that is returned (no error, not empty) is judged like any other; 'done' never depends on the wall clock (poll counter, contexts cancelled on creation, cancellation by the harness DB)",
 		"history phase: the stores run on a harness DB (control/beacon.DB) that returns the admitted candidates ordered by length, newest or oldest first among equal lengths, and records what it handed over; a store query is judged per DB read with k = the policy's BestSetSize; insertion and policy filtering are not judged here",
 	}
 	if f := r.ReplayFile(); f != "" {
@@ -311,9 +325,13 @@ func checkC26(r *mon.Run) {
 			fmt.Fprintln(os.Stderr, "replay:", err)
 			os.Exit(2)
 		}
-		if len(hist.Steps) > 0 {
+		switch {
+		case len(hist.Steps) > 0:
 			c26ReplayHistory(r, hist)
-		} else {
+		case rep.Witness.Ctx != nil:
+			rep.Witness.Got, rep.Witness.Note = nil, ""
+			c26RunCtxSpec(r, rep.Witness, c26ReplaySpec(rep.Witness.Ctx), true)
+		default:
 			rep.Witness.Got, rep.Witness.Note = nil, ""
 			c26Run(r, rep.Witness, true)
 		}
@@ -326,23 +344,36 @@ func checkC26(r *mon.Run) {
 	c26Run(r, c26Case{K: 1, Cands: [][]beaconref.Link{{{IA: 1<<48 | 1, Egress: 1}}, {{IA: 1<<48 | 2, Egress: 1}}}}, false)
 	n := r.Pick(300000, 6000000)
 	tStart := time.Now() // phase durations are reported in the evidence only, they decide nothing
+	// context dimension (c26ctx.go): its own PRNG stream, so that the cases and histories are the same with and
+	// without it. About every 8th case is run a second time with a cancelled / expired / expiring context.
+	crng := r.Rand("c26-ctx")
+	ctxSampled := false
 	for i := 0; i < n; i++ {
-		c26Run(r, c26Gen(rng), i%(n/4) == 17) // 4 samples; the history phase adds its own
+		c := c26Gen(rng)
+		c26Run(r, c, i%(n/4) == 17 && i < 3*(n/4)) // 3 samples + 1 with a context; the history phase adds its own
+		if crng.IntN(8) == 0 {
+			c.Got, c.Note = nil, ""
+			sample := !ctxSampled && i >= 3*(n/4) && len(c.Cands) > c.K && c.K >= 2
+			ctxSampled = ctxSampled || sample
+			c26RunCtx(r, c, crng, sample)
+		}
 	}
 	// history phase (c26hist.go): repeated calls on one algorithm instance, directly and through the stores
 	tHist := time.Now()
 	hrng := r.Rand("c26-history")
 	ha, hs := r.Pick(9000, 180000), r.Pick(1500, 30000)
 	for i := 0; i < ha; i++ {
-		c26AlgoHistory(r, hrng, i == 5)
+		c26AlgoHistory(r, hrng, crng, i == 5)
 	}
 	for i := 0; i < hs; i++ {
-		c26StoreHistory(r, hrng, i == 5 || i == 6)
+		c26StoreHistory(r, hrng, crng, i == 5 || i == 6)
 	}
 	r.Extra("wall_s_by_phase", map[string]float64{"single-calls": tHist.Sub(tStart).Seconds(), "histories": time.Since(tHist).Seconds()})
-	r.Require(int64(n+ha*4+hs*4), 40, "select_all", "select_k1", "select_most-diverse", "select_first-remaining",
+	r.Require(int64(n+n/16+ha*4+hs*4), 40, "select_all", "select_k1", "select_most-diverse", "select_first-remaining",
 		"history_select_all", "history_select_k1", "history_select_most-diverse", "history_select_first-remaining",
-		"history_store_select")
+		"history_store_select",
+		"ctx_select_all", "ctx_select_k1", "ctx_select_most-diverse", "ctx_select_first-remaining")
+	c26CtxRequire(r)
 	r.RequireClasses("all/n<k", "all/n==k",
 		"history/new-shortest-same-origin", "history/new-shortest-other-origin", "history/same-first", "history/first-removed",
 		"history/first-changed-to-earlier-candidate", "history/candidates-recur", "history/candidates-added",
